@@ -4,7 +4,7 @@ guard), SB-1 iterator sibling agreement + intersect table, TS-4 array-backed `in
 escapes, SB-8 annotation map insert/find agree on key and range."""
 import re
 from . import effects, eng_gd
-from .mirlib import call_info, strip, strip_casts, fmt, norm_cmp, walk
+from .mirlib import call_info, strip, strip_casts, fmt, norm_cmp, walk, emap
 
 LEVEL = 'proof'
 AVL = 'data_structures::interval_tree::avl_interval_tree'
@@ -311,6 +311,47 @@ def arg_names(b, txt):
     return txt
 
 
+_UNWRAPPERS = ('::unwrap', '::expect', '::unwrap_unchecked', 'Try>::branch', '::deref', '::deref_mut', '::as_ref',
+               '::as_mut', '::borrow', '::borrow_mut')
+
+
+def _candidate_form(b, e):
+    """rewrite every sub-expression that denotes the entry popped from self.nodes (or a non-self local holding a
+    node) to the atom `node`; drop Deref::deref / reference / pointer-coercion wrappers"""
+    def is_node_ty(ty):
+        return 'Node<' in ty
+
+    def f(x):
+        k = x[0]
+        if k in ('deref', 'ref'):
+            return x[1]
+        if k == 'cast' and (x[3].startswith('PointerCoercion') or x[3] in ('PtrToPtr', 'Subtype')):
+            return x[1]
+        if k == 'call':
+            fn = x[1]
+            if fn.endswith('Vec::<T, A>::pop') or re.search(r'Vec(::<[^>]*>)?::pop$', re.sub(r'<[^<>]*>', '', fn)):
+                a = x[2][0] if x[2] else None
+                if a is not None and fmt(a).endswith('self.nodes'):
+                    return ('local', -1, 'node?')       # Option<node>
+            if any(fn.endswith(u) or (u + '::') in fn or fn.split('::<')[0].endswith(u) for u in _UNWRAPPERS) \
+                    and len(x[2]) >= 1:
+                a = x[2][0]
+                if a == ('local', -1, 'node?') and not fn.endswith(('deref', 'deref_mut')):
+                    return ('local', -1, 'node?') if 'branch' in fn else ('local', -1, 'node')
+                if fn.endswith(('::deref', '::deref_mut', '::as_ref', '::as_mut', '::borrow', '::borrow_mut')) or \
+                        'Deref>::deref' in fn or 'DerefMut>::deref_mut' in fn:
+                    return a
+        if k == 'field' and x[2] == '0' and isinstance(x[1], tuple) and x[1][0] == 'downcast' and \
+                x[1][1] == ('local', -1, 'node?') and x[1][2] in ('Some', 'Continue'):
+            return ('local', -1, 'node')
+        if k == 'local' and x[1] > 0 and x[2] != 'self' and is_node_ty(b.locals[x[1]]['ty']) and \
+                'Option<' not in b.locals[x[1]]['ty'].split('Node<')[0]:
+            return ('local', -1, 'node')
+        return x
+
+    return emap(e, f)
+
+
 def sb1(facts, rep):
     rule = 'SB-1'
     rep.rule(rule, 'sibling agreement: IntervalTreeIterator::next and IntervalTreeIteratorMut::next prune with the same '
@@ -341,21 +382,27 @@ def sb1(facts, rep):
         else:
             rep.bad(rule, key, '%s:%s' % (c[1].file, c[1].line),
                     'the shared and the mutable iterator prune differently: %s vs %s' % (a[2], c[2]))
-        want = ['call intersect(self.interval, candidate.interval)',
-                'candidate.interval.start Lt self.interval.end', 'self.interval.start Lt candidate.max']
-        # name-independent form: replace the candidate local by `node`
-        for ty, b, sig in its:
+        want = sorted(['call intersect(self.interval, node.interval)',
+                       'node.interval.start Lt self.interval.end', 'self.interval.start Lt node.max'])
+        # name- and idiom-independent form: the traversal candidate (whatever expression yields the popped stack
+        # entry: match / ? / unwrap / a user variable) is rewritten to `node`, auto-deref calls are dropped
+        for ty, b, _sig in its:
             key = '%s::next|pruning-predicates' % ty
-            norm = [x.replace('(Vec::pop(self.nodes) as Some).0', 'node') for x in sig]
-            norm = [re.sub(r'\b(?!self\b|node\b)([a-z_][a-z0-9_]*)\.(max|interval)', r'node.\2', x) for x in norm]
-            for _ in range(3):
-                norm = [re.sub(r'Deref>::deref\(([^()]*)\)', r'\1', x) for x in norm]
+            norm = []
+            for g in eng_gd.guards(b):
+                c = norm_cmp(g['expr'], True, xform=lambda x, b=b: _candidate_form(b, x))
+                if c:
+                    norm.append('%s %s %s' % (c[1], c[0], c[2]))
+                else:
+                    e = strip(g['expr'])
+                    if e[0] == 'call':
+                        norm.append('call ' + e[1].rsplit('::', 1)[-1] + '(' +
+                                    ', '.join(fmt(_candidate_form(b, x)) for x in e[2]) + ')')
             norm = sorted(norm)
-            exp = sorted(w.replace('candidate.', 'node.') for w in want)
-            if norm == exp:
+            if norm == want:
                 rep.ok(rule, key, '%s:%s' % (b.file, b.line), '; '.join(norm))
             else:
-                rep.bad(rule, key, '%s:%s' % (b.file, b.line), 'pruning predicates are %s, expected %s' % (norm, exp))
+                rep.bad(rule, key, '%s:%s' % (b.file, b.line), 'pruning predicates are %s, expected %s' % (norm, want))
     it = facts.body(AVL + '::intersect')
     if it is None:
         rep.missing(rule, AVL + '::intersect', 'not found')
